@@ -69,6 +69,9 @@ struct ItemReq {
     no_rewrite: Vec<String>,
     #[serde(default)]
     sig_only: bool,
+    /// "vec" | "deque": receiver kind assumed by the retain lowering (rustc rejects a wrong choice)
+    #[serde(default)]
+    retain: Option<String>,
 }
 
 #[derive(Serialize, Default)]
@@ -168,6 +171,7 @@ fn attrs_enabled(attrs: &[Attribute], feats: &[String]) -> std::result::Result<b
 // the rewriting visitor
 // ---------------------------------------------------------------------------------------------
 struct Rw<'a> {
+    retain: String,
     feats: &'a [String],
     counts: BTreeMap<String, u32>,
     err: Option<String>,
@@ -476,8 +480,71 @@ impl<'a> VisitMut for Rw<'a> {
     }
 
     fn visit_expr_mut(&mut self, e: &mut Expr) {
+        if self.enabled("R13") {
+            if let Expr::ForLoop(f) = e {
+                let target: Option<Expr> = match &*f.expr {
+                    Expr::Reference(r) if r.mutability.is_some() => Some((*r.expr).clone()),
+                    Expr::MethodCall(mc) if mc.method == "iter_mut" && mc.args.is_empty() => Some((*mc.receiver).clone()),
+                    _ => None,
+                };
+                if let (Some(v), None) = (target, &f.label) {
+                    let i = self.fresh("i");
+                    let pat = &f.pat;
+                    let stmts = &f.body.stmts;
+                    let ne: Expr = parse_quote!({
+                        let mut #i: usize = 0;
+                        while #i < #v.len() {
+                            let #pat = &mut #v[#i];
+                            #i += 1;
+                            #(#stmts)*
+                        }
+                    });
+                    *e = ne;
+                    self.bump("R13.for_mut");
+                }
+            }
+        }
         // children first (inner chains inside closures get lowered first)
         visit_mut::visit_expr_mut(self, e);
+        if self.enabled("R12") {
+            if let Expr::MethodCall(mc) = e {
+                if mc.method == "retain" && mc.args.len() == 1 {
+                    if let Some(c) = closure_of(&mc.args[0]) {
+                        if let Some(p) = closure_single_pat(&c) {
+                            let recv = &mc.receiver;
+                            let b = &c.body;
+                            let o = self.fresh("o");
+                            let ne: Expr = if self.retain == "deque" {
+                                let n = self.fresh("n");
+                                let i = self.fresh("i");
+                                parse_quote!({
+                                    let #n = #recv.len();
+                                    let mut #i: usize = 0;
+                                    while #i < #n {
+                                        if let Some(#o) = #recv.pop_front() {
+                                            if { let #p = &#o; #b } { #recv.push_back(#o); }
+                                        }
+                                        #i += 1;
+                                    }
+                                })
+                            } else {
+                                let old = self.fresh("old");
+                                parse_quote!({
+                                    let mut #old = Vec::new();
+                                    std::mem::swap(&mut #recv, &mut #old);
+                                    for #o in #old {
+                                        if { let #p = &#o; #b } { #recv.push(#o); }
+                                    }
+                                })
+                            };
+                            *e = ne;
+                            self.bump("R12.retain");
+                            return;
+                        }
+                    }
+                }
+            }
+        }
         if self.enabled("R5") {
             if let Expr::MethodCall(mc) = e {
                 if mc.method == "extend" && mc.args.len() == 1 && mc.turbofish.is_none() {
@@ -528,6 +595,8 @@ impl<'a> VisitMut for Rw<'a> {
                 }
             }
         }
+        // R13: `for x in &mut V` / `for x in V.iter_mut()` -> counted while loop over `&mut V[i]`
+        // (done in visit_expr_mut because the loop expression itself is replaced)
         // R11: `for &x in ..` -> `for __r in .. { let x = *__r; .. }`
         if self.enabled("R11") {
             if let Pat::Reference(pr) = &*f.pat {
@@ -935,7 +1004,7 @@ fn do_fn(items: &[Item], req: &ItemReq, feats: &[String]) -> std::result::Result
         counts.insert("RE.replace_expr".into(), rp.expr.iter().map(|x| x.1).sum());
     }
 
-    let mut rw = Rw { feats, counts, err: None, fresh: 0, no: req.no_rewrite.clone() };
+    let mut rw = Rw { retain: req.retain.clone().unwrap_or_else(|| "vec".into()), feats, counts, err: None, fresh: 0, no: req.no_rewrite.clone() };
     // signature: strip attrs on params
     for a in sig.inputs.iter_mut() {
         match a {
